@@ -25,5 +25,6 @@ func verifQuiesce()
 func verifSetBudget(n int)
 func verifExplore(mapOrderBudget int, sched int)
 func verifNativeRepeat(n int) int
+func verifFireTimers() int
 func verifTerminates(budget int, label string)
 func verifTag(n int) func()
